@@ -636,12 +636,14 @@ func (gw *GlobalWindow) getKeyAndValues(data map[string]any) (string, map[string
 			}
 		}
 		values[k] = val
+		// '|' and '\\' inside a value are escaped and NULL has its own marker, so
+		// ("a|b","c") / ("a","b|c") and NULL / "" are different groups.
 		if val == nil {
-			parts = append(parts, "")
+			parts = append(parts, cast.GroupKeyNull)
 		} else if s, ok := val.(string); ok {
-			parts = append(parts, s)
+			parts = append(parts, cast.EscapeGroupKeyText(s))
 		} else {
-			parts = append(parts, fmt.Sprintf("%v", val))
+			parts = append(parts, cast.EscapeGroupKeyText(fmt.Sprintf("%v", val)))
 		}
 	}
 	return strings.Join(parts, "|"), values
